@@ -222,7 +222,7 @@ def _path_lines(g: CFG, path: List[int]) -> str:
     return ">".join(out[:24])
 
 
-@rule("C06.R4", ["C06", "C11", "C13", "C01", "C07"], min_instances=4, design="3.6")
+@rule("C06.R4", ["C06", "C11", "C13", "C01", "C07", "C02", "C03"], min_instances=4, design="3.6")
 def maintenance_on_every_exit(ctx):
     """After a primary-storage mutation, every exit (normal or exceptional) passes index maintenance or invalidation, unless the index is known invalid."""
     n_mut = 0
@@ -251,7 +251,9 @@ def maintenance_on_every_exit(ctx):
             wit = explore_after_mutation(ctx, f, g, ne, nd.id, False, tracked)
             for kind in ("normal", "raise"):
                 p = wit.get(kind)
-                props = ["C06", "C01", "C07"] + (["C11", "C13"] if kind == "raise" else [])
+                props = ["C06", "C01", "C07"] + (["C11", "C13"] if kind == "raise" else []) + (
+                    ["C02"] if f.name in ("_remove_helper", "_reset_database") else []) + (
+                    ["C03"] if f.name == "_update_helper" else [])
                 yield Ob("C06.R4", props, f"{f.qual} | after {what}{occ(f, nd.ast)} | {kind} exit", p is None,
                          "every such exit passes index maintenance/invalidation (or the index is invalid)"
                          if p is None else
